@@ -1432,12 +1432,16 @@ void AStarPathPrivate::search(ConnRef *lineRef, VertInf *src, VertInf *tar, Vert
                 }
             }
 
-            if (atCostTarget &&
-                    (node.inf->id.isConnectionPin() || (node.inf == tar)))
+            if (atCostTarget && node.inf->id.isConnectionPin())
             {
                 // This is a point on the side of an obstacle that connects
-                // to the target or a connection pin.  It should have no 
-                // further cost and the heuristic should be zero.
+                // to a connection pin.  It should have no further cost and
+                // the heuristic should be zero.
+                // Note: The final step from one of the cost targets to a
+                // target that is itself a connector endpoint is charged
+                // like any other step (below), otherwise paths that differ
+                // in the length of, or the bend into, their final segment
+                // would be compared without it.
                 node.g = bestNode->g;
                 node.h = 0;
             }
